@@ -128,8 +128,14 @@ def mon_c01(h):
                     bad.append(("lossless", "action %d was accepted but never reduced before stop() returned" % a))
     # after stop: get_state is the state after the last reduced action
     if sr is not None:
-        for e in h.ev[sr:]:
-            if e["kind"] == "RET" and e["f"][0] == "gs" and e["f"][1] != "state=" + cur:
+        # (a read invoked before stop() returned may overlap the last write-back: only reads
+        # invoked after the return are judged)
+        open_inv = {}
+        for e in h.ev:
+            if e["kind"] == "INV" and e["f"][0] == "gs":
+                open_inv[e["t"]] = e["i"]
+            if e["kind"] == "RET" and e["f"][0] == "gs" and e["i"] > sr and open_inv.get(e["t"], -1) > sr \
+                    and e["f"][1] != "state=" + cur:
                 bad.append(("final-state", "get_state after stop returned %s, last reduced state is %s" % (e["f"][1], cur)))
         if h.end.get("state") is not None and h.end["state"] != cur and not h.end.get("unfinished", "-").startswith("100"):
             if "100@" not in h.end.get("unfinished", "-"):
